@@ -2146,6 +2146,8 @@ void vf_slice_8() { filesystem_all(); }
 #include <fcppt/optional/is_object.hpp>
 #include <fcppt/optional/make.hpp>
 #include <fcppt/optional/object.hpp>
+#include <fcppt/container/raw_vector/object_impl.hpp>
+#include <fcppt/endianness/reverse_mem.hpp>
 #include <fcppt/options/apply.hpp>
 #include <fcppt/options/argument.hpp>
 #include <fcppt/options/default_help_switch.hpp>
@@ -2217,6 +2219,99 @@ void all_arg_vectors(unsigned const maxlen, F const &f)
         ix[k++] = 0;
       if (k == len)
         break;
+    }
+  }
+}
+
+// Memory helpers taking a pointer+length or a reference into the container itself: in-domain arguments include the
+// empty block and a value that aliases an element of the vector (C07 judges the contents; here only "returns normally,
+// touches nothing outside its allocation" - the sanitizers and the exception classifier are the oracle).
+void memory_helpers_all()
+{
+  {
+    std::string const e = "endianness::reverse_mem";
+    if (vf::entry_enabled(e))
+    {
+      vf::set_entry(e);
+      std::uint64_t calls = 0;
+      for (std::size_t len = 0; len <= 17; ++len)
+      {
+        if (!my_item())
+          continue;
+        if (!vf::begin_case("block of %zu bytes, exactly sized heap buffer", len))
+          continue;
+        vf::sample_case(2);
+        vf::note_distinct(vf::hash_mix(vf::hash_str(e), len));
+        std::unique_ptr<unsigned char[]> const buf(new unsigned char[len]);
+        for (std::size_t i = 0; i < len; ++i)
+          buf[i] = static_cast<unsigned char>(i + 1);
+        guard(wl_none, [&] { fcppt::endianness::reverse_mem(buf.get(), len); });
+        for (std::size_t i = 0; i < len; ++i)
+          if (buf[i] != static_cast<unsigned char>(len - i))
+            vf::count("observed/reverse_mem/not-reversed");
+        if (len == 0)
+          VF_COUNT("bucket/reverse_mem/empty-block");
+        ++calls;
+      }
+      vf::count("calls/" + e, calls);
+    }
+  }
+  {
+    std::string const e = "container::raw_vector(aliased-value)";
+    if (vf::entry_enabled(e))
+    {
+      vf::set_entry(e);
+      using rv = fcppt::container::raw_vector::object<int>;
+      std::uint64_t calls = 0;
+      for (std::size_t n = 1; n <= 9; ++n)
+        for (std::size_t spare = 0; spare <= 2; ++spare)
+        {
+          if (!my_item())
+            continue;
+          if (!vf::begin_case("size %zu, capacity %zu: push_back / insert / insert(n) / resize with every own element as the value", n, n + spare))
+            continue;
+          vf::sample_case(1);
+          vf::note_distinct(vf::hash_mix(vf::hash_str(e), n * 8 + spare));
+          auto const fresh = [&] {
+            rv v;
+            v.reserve(n + spare);
+            for (std::size_t i = 0; i < n; ++i)
+              v.push_back(static_cast<int>(10 + i));
+            v.shrink_to_fit();
+            v.reserve(n + spare);
+            return v;
+          };
+          for (std::size_t i = 0; i < n; ++i)
+          {
+            guard(wl_none, [&] {
+              rv v(fresh());
+              v.push_back(v[i]);
+              if (v.back() != static_cast<int>(10 + i))
+                vf::count("observed/raw_vector/aliased-value-changed");
+            });
+            ++calls;
+            for (std::size_t p = 0; p <= n; ++p)
+            {
+              guard(wl_none, [&] {
+                rv v(fresh());
+                v.insert(v.begin() + static_cast<std::ptrdiff_t>(p), v[i]);
+              });
+              guard(wl_none, [&] {
+                rv v(fresh());
+                v.insert(v.begin() + static_cast<std::ptrdiff_t>(p), spare + 1, v[i]);
+              });
+              calls += 2;
+            }
+            guard(wl_none, [&] {
+              rv v(fresh());
+              v.resize(n + spare + 2, v[i]);
+            });
+            ++calls;
+            if (spare == 0)
+              VF_COUNT("bucket/raw_vector/aliased-value-while-reallocating");
+          }
+        }
+      vf::count("calls/" + e, calls);
     }
   }
 }
@@ -2413,6 +2508,7 @@ void vf_slice_9()
 {
   is_flag_all();
   next_arg_all();
+  memory_helpers_all();
   shape("argument<int>", [] { return mk_arg_int(); });
   shape("argument<string>", [] { return mk_arg_str(); });
   shape("flag<int>", [] { return mk_flag(); });
@@ -2956,7 +3052,8 @@ void body()
         "outcome/make_recursive_directory_range/failure", "outcome/runtime_index/function", "outcome/runtime_index/fail-function",
         "outcome/ill-formed-definition/threw", "outcome/is_power_of_2/true", "outcome/is_power_of_2/false",
         "faults/throw/reached/exceptions-off", "faults/throw/reached/exceptions-on", "faults/eof/reached",
-        "parse-faults/throw/reached/exceptions-off", "parse-faults/throw/reached/exceptions-on", "streams/istringstream"})
+        "parse-faults/throw/reached/exceptions-off", "parse-faults/throw/reached/exceptions-on", "streams/istringstream",
+        "bucket/reverse_mem/empty-block", "bucket/raw_vector/aliased-value-while-reallocating"})
     vf::require_bucket(b);
   // an entry family that never returned both outcomes where both are possible makes the run inconclusive
   for (char const *f : {"ceil_div", "ceil_div_signed", "div", "mod", "clamp", "div-float", "mod-float", "clamp-float", "truncation_check",
